@@ -27,6 +27,7 @@ import GherkinVerif.Lemmas.Rectangular
 import GherkinVerif.Props.C01NoCrashAll
 import GherkinVerif.Props.C01
 import GherkinVerif.Props.C06
+import GherkinVerif.KDecide
 namespace GV
 
 open Lemmas.Rect in
@@ -84,7 +85,7 @@ theorem C01_compile_parsed_total (stop : Bool) (μ : MState) (ids : Nat) (src : 
 
 /-- the stream's default dialect "en" is in the regenerated dialect table: the constructor
     `TokenMatcher()` does not raise -/
-theorem C01_fact_default_dialect : (MState.init Gen.dialects (lit "en")).isSome = true := by decide +kernel
+theorem C01_fact_default_dialect : (MState.init Gen.dialects (lit "en")).isSome = true := by kdecide
 
 /-- **No crash envelope.**  For every option set, id counter, uri and source text, no envelope
     of the stream is the model's `.crash` (a non-ParserError exception escaping `enum`). -/
@@ -204,7 +205,7 @@ example : (MState.init Gen.dialects (lit "en")).map (fun μ =>
     match (parseWith Gen.dialects Gen.parserTable false μ 0
       (lit "Feature: f\nScenario Outline: s\nGiven <a>\n|x|y|\n|1|2|\nExamples:\n|a|b|\n|1|2|\n|3|4|\n")).1 with
     | .ok d => (Lemmas.Rect.docSteps d).length
-    | _ => 99) = some 1 := by decide +kernel
+    | _ => 99) = some 1 := by kdecide
 
 end examples
 end GV
